@@ -360,7 +360,47 @@ func (g *c04gen) replayReordered(log []hashRec) {
 	}
 }
 
+// restored: the value encodings of a merklizer restored from its binary form (same hasher) are those of the statement
+func (g *c04gen) restored() {
+	doc := []byte(`{"@context":{"xsd":"http://www.w3.org/2001/XMLSchema#","ex":"urn:ex:","b":{"@id":"ex:b","@type":"xsd:boolean"},"n":{"@id":"ex:n","@type":"xsd:integer"},` +
+		`"m":{"@id":"ex:m","@type":"xsd:nonPositiveInteger"},"t":{"@id":"ex:t","@type":"xsd:dateTime"},"s":{"@id":"ex:s","@type":"xsd:string"},"d":{"@id":"ex:d","@type":"xsd:double"},"u":{"@id":"ex:u","@type":"xsd:int"}},` +
+		`"@id":"urn:x","b":true,"n":-5,"m":"-7","t":"1931-05-06T07:08:09.000000001+05:30","s":"text","d":1.5,"u":"12"}`)
+	for _, hs := range []HSpec{hSmall(65537), hSalted(), hSmall(2305843009213693951), hShifted(), hPoseidon()} {
+		var why []string
+		run := runMerklize(doc, hs, &mapLoader{docs: map[string][]byte{}}, true)
+		if run.Err != nil {
+			g.out.Emit(Case{Op: "none", In: J{"h": hs.JSON}, Impl: errJ(run.Err), Prop: &PropRes{OK: false, Why: "restored-stage document does not merklize: " + run.Err.Error()}, Tags: []string{"restored"}, NT: true})
+			continue
+		}
+		bs, err := run.Mz.MarshalBinary()
+		var mz2 *merklize.Merklizer
+		if err == nil {
+			mz2, err = merklize.MerklizerFromBytes(bs, merklize.WithHasher(hs.H), merklize.WithDocumentLoader(&mapLoader{docs: map[string][]byte{}}))
+		}
+		if err != nil {
+			why = append(why, "binary round trip fails: "+err.Error())
+		} else {
+			n := 0
+			for _, e := range mz2.VerifEntries() {
+				want, werr := valueHash(hs, e.VerifValue())
+				got, gerr := e.ValueMtEntry()
+				if werr == nil && (gerr != nil || got.Cmp(want) != 0) {
+					why = append(why, fmt.Sprintf("restored entry %v (%s) encodes as %v (%v), the statement's encoding under this hasher is %v", e.VerifKeyParts(), e.VerifDatatype(), got, gerr, want))
+				}
+				n++
+			}
+			if n != len(run.Mz.VerifEntries()) {
+				why = append(why, fmt.Sprintf("%d entries restored, %d merklized", n, len(run.Mz.VerifEntries())))
+			}
+		}
+		g.out.Emit(Case{Op: "none", In: J{"h": hs.JSON, "doc": string(doc)}, Impl: J{}, Prop: propOf(why), Tags: []string{"restored", "h:" + hs.Name}, NT: true})
+	}
+}
+
 func (g *c04gen) run(tier string, n int) {
+	if g.shard == 0 {
+		g.restored()
+	}
 	var log []hashRec
 	hashLog = &log
 	defer func() {
